@@ -13,38 +13,22 @@
 (*                      -pipe -c ... once-only                             *)
 (*   DCompilerArgs      -I prepend+override; -L prepend only; library      *)
 (*                      files once-only                                    *)
-(* A *word* is an argument text, abstractly [f |-> family, ab |-> 0/1]; an  *)
-(* object of class cl sees word number n as ViewArg(cl, w, n), a record of *)
-(* module ArgList, and every operation on the object follows ArgList!Step  *)
-(* with that view.  What other lists of other classes did with the same    *)
-(* words before is irrelevant.                                             *)
+(* How a class treats a text whose spelling matches SEVERAL of its rules   *)
+(* (-DSUFFIX=.so: an override-type prefix and a library suffix) is fixed   *)
+(* by module ArgListClassify (precedence bare > override > once > rest).   *)
+(* A *word* is an argument text, abstractly its shape (ArgListClassify:    *)
+(* pfx, bare, exact, sfx, ab); an object of class cl sees word number n as *)
+(* ViewArg(cl, w, n), a record of module ArgList, and every operation on   *)
+(* the object follows ArgList!Step with that view.  What other lists of    *)
+(* other classes did with the same words before is irrelevant.             *)
 (***************************************************************************)
-EXTENDS ArgList
+EXTENDS ArgList, ArgListClassify
 
 Classes == <<"base", "clike", "d">>
-Families == {"I", "L", "D", "isys", "l", "wll", "lib", "dll", "once", "rpath", "plain", "bareI", "bareL"}
-
-\* <<prepend, dedup, library-for-grouping>> of a family under a class
-KindOf(cl, f) ==
-    CASE cl = "clike" ->
-           CASE f \in {"I", "L"} -> <<1, "over", 0>>
-             [] f \in {"D", "isys"} -> <<0, "over", 0>>
-             [] f \in {"l", "wll", "lib"} -> <<0, "unique", 1>>
-             [] f \in {"dll", "once", "rpath"} -> <<0, "unique", 0>>
-             [] f \in {"bareI", "bareL"} -> <<1, "none", 0>>
-             [] OTHER -> <<0, "none", 0>>
-      [] cl = "d" ->
-           CASE f = "I" -> <<1, "over", 0>>
-             [] f \in {"L", "bareI", "bareL"} -> <<1, "none", 0>>
-             [] f \in {"lib", "dll"} -> <<0, "unique", 0>>
-             [] OTHER -> <<0, "none", 0>>
-      [] OTHER ->        \* the base class
-           CASE f \in {"lib", "dll"} -> <<0, "unique", 0>>
-             [] OTHER -> <<0, "none", 0>>
 
 \* word number n as an object of class cl sees it (id = n keeps different words different)
 ViewArg(cl, w, n) ==
-    LET k == KindOf(cl, w.f) IN [p |-> k[1], d |-> k[2], g |-> k[3], s |-> 0, ab |-> w.ab, m |-> 0, id |-> n]
+    LET k == Classify(cl, w) IN [p |-> k.p, d |-> k.d, g |-> k.g, s |-> 0, ab |-> w.ab, m |-> 0, id |-> n]
 ViewArgs(cl, words, s) == [j \in 1..Len(s) |-> IF s[j] \in 1..Len(words) THEN ViewArg(cl, words[s[j]], s[j]) ELSE Alien]
 
 \* one operation on a store of lists `objs` with classes `cls`; op.b holds word numbers; for "new", op.i is the
